@@ -191,7 +191,8 @@ func (b *BitArray) Xor(other *BitArray) error {
 	if b.size != other.size {
 		return errors.New("IllegalArgumentException: Sizes don't match")
 	}
-	for i := 0; i < len(b.bits); i++ {
+	// equal sizes need not mean equal word counts (an empty array may own one word or none)
+	for i := 0; i < len(b.bits) && i < len(other.bits); i++ {
 		b.bits[i] ^= other.bits[i]
 	}
 	return nil
